@@ -87,6 +87,9 @@ def _under_no_grad(mod, node) -> bool:
     return False
 
 
+_MODULE_CONSTS = {}      # name -> literal tuple / list of the module under analysis (set by the caller): `tuple(f(x) for x in NAMES)` is enumerable through it
+
+
 def _tuple_elements(e):
     """element texts of a tuple-valued expression: literals, tuple(<comprehension over range(a, b)>), concatenation `+`, repetition `(x,) * k`; None if not enumerable"""
     if isinstance(e, (ast.Tuple, ast.List)):
@@ -102,9 +105,17 @@ def _tuple_elements(e):
     if isinstance(e, ast.Call) and isinstance(e.func, ast.Name) and e.func.id in ("tuple", "list") and len(e.args) == 1:
         a = e.args[0]
         if isinstance(a, (ast.GeneratorExp, ast.ListComp)) and len(a.generators) == 1 and not a.generators[0].ifs and isinstance(a.generators[0].target, ast.Name) \
-                and isinstance(a.generators[0].iter, ast.Call) and norm(a.generators[0].iter.func) == "range":
+                and ((isinstance(a.generators[0].iter, ast.Call) and norm(a.generators[0].iter.func) == "range")
+                     or (isinstance(a.generators[0].iter, ast.Name) and a.generators[0].iter.id in _MODULE_CONSTS)
+                     or isinstance(a.generators[0].iter, (ast.Tuple, ast.List))):
             try:
-                rng = range(*[ast.literal_eval(x) for x in a.generators[0].iter.args])
+                it_ = a.generators[0].iter
+                if isinstance(it_, ast.Call):
+                    rng = range(*[ast.literal_eval(x) for x in it_.args])
+                elif isinstance(it_, ast.Name):
+                    rng = list(_MODULE_CONSTS[it_.id])
+                else:
+                    rng = list(ast.literal_eval(it_))
             except Exception:
                 return None
             var = a.generators[0].target.id
@@ -227,6 +238,14 @@ def run(ctx):
         if not fw or not bw:
             raise AnalysisError(f"{cname}: forward/backward not found")
         n_in = len(fw[2].args.args) - 1
+        _MODULE_CONSTS.clear()
+        for gname_, gval_ in bw[0].globals.items():
+            try:
+                v_ = ast.literal_eval(gval_)
+                if isinstance(v_, (tuple, list)):
+                    _MODULE_CONSTS[gname_] = v_
+            except (ValueError, SyntaxError, TypeError):
+                pass
         rets = [r for r in ast.walk(bw[2]) if isinstance(r, ast.Return) and m.enclosing_function(r) is bw[2]]
         for r in rets:
             te_ = _tuple_elements(r.value)
